@@ -5,7 +5,7 @@ Everything is about the transition system of `Model.lean` (one step = the code b
 verifYield points), for ANY number of transactions / goroutines / caches / objects, any programs,
 any cache limit, with eviction (`Release`, pruning) possible at every moment.
 -/
-import SemaModel.C11.Inv14
+import SemaModel.C11.Witness
 import SemaModel.C11.Skeleton
 import SemaModel.Generated.FactsC11
 namespace Sema.C11
@@ -92,5 +92,55 @@ theorem C11_released {s0 s : St} (hi : Init s0) (hv : s0.v = fixedV) (hr : Reach
             simp [St.unfinished, hlt, Thread.done] at this
             cases hp : (s.thr (.c T)).pc <;> simp [hp] at this <;> simp [stillHeld, hp] at h2
           · rw [ho.wr T (Nat.le_of_not_lt hlt)] at h1; simp at h1
+
+/-! ## witnesses: the model of the PINNED code (and of the partial repairs) violates the property
+
+All by evaluation (`decide`) of a concrete schedule on a concrete workload; the same schedules are
+replayed on the real code by the harness (notes/C11.md). -/
+
+def pinnedV : Variant := {}
+/-- only the reorder proposed in DESIGN §8 no. 6 (`RUnlock` before `checkAndPrune`) -/
+def reorderV : Variant := { pruneAfterRUnlock := true }
+/-- the first two fixes but not the third -/
+def twoFixesV : Variant := { txFirst := true, useOwn := true }
+
+set_option maxRecDepth 100000 in
+/-- DESIGN §8 no. 6 on the pinned code: reader's `checkAndPrune` (under RLock) → manager mutex →
+transaction mutex → the cache lock the reader holds -/
+theorem C11_deadlock_witness_pinned :
+    Init (wl86 pinnedV) ∧ ∃ s, Reachable (wl86 pinnedV) s ∧ Deadlocked s := by
+  refine ⟨mkInit_Init _ _ _ _ _ (by decide), ?_⟩
+  obtain ⟨s, hr, hd⟩ := witness_of_run (P := St.deadlockedB) (wl86 pinnedV) sched86 (by decide)
+  exact ⟨s, hr, deadlocked_of_B hd⟩
+
+set_option maxRecDepth 100000 in
+/-- the reorder alone is not enough (1): a reader whose callback FAILS takes the manager mutex under RLock -/
+theorem C11_deadlock_witness_reorder_failing_reader :
+    Init (wlRF reorderV) ∧ ∃ s, Reachable (wlRF reorderV) s ∧ Deadlocked s := by
+  refine ⟨mkInit_Init _ _ _ _ _ (by decide), ?_⟩
+  obtain ⟨s, hr, hd⟩ := witness_of_run (P := St.deadlockedB) (wlRF reorderV) schedRF (by decide)
+  exact ⟨s, hr, deadlocked_of_B hd⟩
+
+set_option maxRecDepth 100000 in
+/-- the reorder alone is not enough (2): no reader at all — `Commit` of the previous writer (transaction
+mutex → manager mutex) against the two goroutines of the next writer -/
+theorem C11_deadlock_witness_reorder_commit :
+    Init (wlCM reorderV) ∧ ∃ s, Reachable (wlCM reorderV) s ∧ Deadlocked s := by
+  refine ⟨mkInit_Init _ _ _ _ _ (by decide), ?_⟩
+  obtain ⟨s, hr, hd⟩ := witness_of_run (P := St.deadlockedB) (wlCM reorderV) schedCM (by decide)
+  exact ⟨s, hr, deadlocked_of_B hd⟩
+
+set_option maxRecDepth 100000 in
+/-- pinned code: after an eviction a writer runs its callback on an object it does not hold, while a
+reader of another transaction is inside its callback on the same object -/
+theorem C11_mutex_witness_pinned :
+    Init (wlST pinnedV) ∧ ∃ s, Reachable (wlST pinnedV) s ∧ s.mutexViolatedB = true := by
+  exact ⟨mkInit_Init _ _ _ _ _ (by decide), witness_of_run (wlST pinnedV) schedST (by decide)⟩
+
+set_option maxRecDepth 100000 in
+/-- without the third fix: every transaction has committed, an object is still write-locked -/
+theorem C11_leak_witness_two_fixes :
+    Init (wlOR twoFixesV) ∧ ∃ s, Reachable (wlOR twoFixesV) s ∧ s.leakB = true := by
+  exact ⟨mkInit_Init _ _ _ _ _ (by decide), witness_of_run (wlOR twoFixesV) schedOR (by decide)⟩
 
 end Sema.C11
